@@ -74,6 +74,10 @@ package cache
 //@   props C17
 //@   safety off
 //@   ensures [C17:an-empty-handle-releases-nothing] old(h.n) == nil ==> calls("(*Node).unRefExternal") == old(calls("(*Node).unRefExternal"))
+// (a handle is emptied before it gives its reference back: releasing it again then releases nothing - a handle that
+// stayed full would give a second reference back, one that another holder still counts on)
+//@   at before call (*Node).unRefExternal#1
+//@     assert [C17:a-handle-is-emptied-before-it-gives-its-reference-back] h.n == nil && recv == old(h.n)
 //@ func (*Node).unRefExternal
 //@   props C17
 //@   safety off
